@@ -250,6 +250,23 @@ pub fn replay(a: &Args) -> i32 {
         Ok((7, _)) => {}
         other => mismatches.push(json!({"what": format!("an exact route of {} bytes was not dispatched to its service: {:?}", long_exact.len(), other.ok())})),
     }
+    // generated servers mounted through add_rpc_service: a request under /<service-name>/ reaches
+    // that service (which answers something other than NotFound for a method it has), any other
+    // route gets the router's NotFound
+    {
+        let r = crate::scenarios::codegen::generated_router();
+        let body = Bytes::from(bincode::serialize(&crate::gen::Msg { a: 1, s: "hi".into() }).unwrap());
+        for (path, own) in [("/Greeter/SayHello", true), ("/Greeter/Say", true), ("/p.q.Greeter/SayHello", true),
+                            ("/.Greeter/SayHello", false), ("/Greeter", false), ("/q.Greeter/SayHello", false), ("/p.Empty", false),
+                            ("Greeter/SayHello", false), ("//Greeter/SayHello", false)] {
+            evaluations += 1;
+            let resp = futures::executor::block_on(r.clone().oneshot(Request::new(body.clone()).with_route(path)));
+            let reached = matches!(&resp, Ok(x) if x.status() != StatusCode::NotFound);
+            if reached != own {
+                mismatches.push(json!({"what": format!("generated services: route {path:?} answered {:?}, expected {}", resp.map(|x| x.status()), if own { "its service" } else { "NotFound" })}));
+            }
+        }
+    }
     // the same rule end to end: requests from a remote peer over two real networks reach the
     // router with the route the caller sent (the empty route included)
     {
@@ -288,6 +305,46 @@ pub fn replay(a: &Args) -> i32 {
                 }
             }
             Err(e) => mismatches.push(json!({"what": format!("network probe could not be set up: {e}")})),
+        }
+    }
+    // unmatched routes of every shape get a NotFound *response* also when a frame limit is
+    // configured and the route comes close to it
+    {
+        let rt = tokio::runtime::Builder::new_multi_thread().worker_threads(2).enable_all().build().unwrap();
+        let server_router = router.clone();
+        let probes: Vec<String> = vec![
+            "/nope".into(), format!("/nope/{}", "x".repeat(900)), format!("/{}", "\u{1}".repeat(300)), format!("/{}", "\"".repeat(400)),
+            format!("/svcx/{}", "é".repeat(450)), "x".repeat(980),
+        ];
+        let res: Result<Vec<(usize, String)>, String> = rt.block_on(async move {
+            let mut cfg = anemo::Config::default();
+            cfg.max_frame_size = Some(1024);
+            let server = anemo::Network::bind("127.0.0.1:0").server_name("net").private_key([73; 32]).config(cfg.clone()).start(server_router).map_err(|e| e.to_string())?;
+            let client = anemo::Network::bind("127.0.0.1:0").server_name("net").private_key([74; 32]).config(cfg).start(Router::new()).map_err(|e| e.to_string())?;
+            let peer = client.connect(server.local_addr()).await.map_err(|e| e.to_string())?;
+            let mut out = Vec::new();
+            for path in probes {
+                let r = tokio::time::timeout(std::time::Duration::from_secs(10), client.rpc(peer, Request::new(Bytes::new()).with_route(path.clone()))).await;
+                out.push((path.len(), match r {
+                    Ok(Ok(resp)) => format!("{:?}", resp.status()),
+                    Ok(Err(e)) => format!("error: {e}"),
+                    Err(_) => "hang".into(),
+                }));
+            }
+            let _ = client.shutdown().await;
+            let _ = server.shutdown().await;
+            Ok(out)
+        });
+        match res {
+            Ok(rows) => {
+                for (len, got) in rows {
+                    evaluations += 1;
+                    if got != "NotFound" && mismatches.len() < 16 {
+                        mismatches.push(json!({"what": format!("frame limit 1024: an unmatched route of {len} bytes was answered {got}, not with a NotFound response")}));
+                    }
+                }
+            }
+            Err(e) => mismatches.push(json!({"what": format!("network probe (frame limit) could not be set up: {e}")})),
         }
     }
     std::panic::set_hook(default_hook);
